@@ -59,6 +59,12 @@ STALE_MEMO_SITES = {f"{q}/{_R}": "F-C10-3" for q in (
 )}
 
 
+# module-level constructors of parents that the classes of these properties are built on: they may keep no state
+# between calls either (a cache keyed without the sequence text hands back another genome's chunk)
+PARENT_BUILDERS = ["io.parser.seq_chunk_to_parent", "io.parser.seq_to_parent"]
+GROUP_FUNCTIONS = {("C04",): PARENT_BUILDERS, ("C05", "C07"): PARENT_BUILDERS, ("C09",): PARENT_BUILDERS}
+
+
 def _mk(props, classes):
     class Frame(Case):
         pass
@@ -70,7 +76,8 @@ def _mk(props, classes):
     # identifiers are digests of the stored fields: where C08 is concerned, a field may not store a container whose
     # ORDER comes from set iteration (the 'order' obligations of the static back end)
     kinds = ("frame", "identity", "kind", "order") if "C08" in props else ("frame", "identity", "kind")
-    c.static = dict(classes=classes, kinds=kinds, accepted={}, known=dict(STALE_MEMO_SITES), constructors="C08" in props)
+    c.static = dict(classes=classes, kinds=kinds, accepted={}, known=dict(STALE_MEMO_SITES), constructors="C08" in props,
+                    functions=list(GROUP_FUNCTIONS.get(props, [])))
     return c
 
 
